@@ -2,7 +2,7 @@
    Statements only; every proof is [exact lemma].  valid_md is the calendar predicate
    (1<=m<=12, 1<=d<=DAYS_PER_MONTH[m]) over the tables generated from date.rs. *)
 From JV Require Import Bytes Tables U64Swar Scalar Date.
-From JV.proofs Require Import DateProofs DateProofs2.
+From JV.proofs Require Import DateProofs DateProofs2 SwarLanes.
 Open Scope Z_scope.
 
 (* to_binary / from_binary are mutually inverse for every date the binary format can express *)
@@ -89,3 +89,20 @@ Proof.
   split; [vm_compute; reflexivity|]. split; [vm_compute; reflexivity|].
   eexists. split; [vm_compute; reflexivity|]. intros H; vm_compute in H; inversion H.
 Qed.
+
+(* util::fast_digit_parse, bit-exact over u64: for ANY eight bytes (little-endian word) the result is
+   Some (decimal value, first byte most significant) iff all eight are ASCII digits, else None.
+   dec_val l = fold_left (fun acc b => 10*acc + (b-48)) l 0. *)
+Theorem C13_fast_digit_parse_spec : forall b0 b1 b2 b3 b4 b5 b6 b7,
+  wfl [b0; b1; b2; b3; b4; b5; b6; b7] ->
+  fast_digit_parse (le_u64 [b0; b1; b2; b3; b4; b5; b6; b7]) =
+  if forallb is_digit [b0; b1; b2; b3; b4; b5; b6; b7]
+  then Some (dec_val [b0; b1; b2; b3; b4; b5; b6; b7]) else None.
+Proof. exact fast_digit_parse_spec. Qed.
+Print Assumptions C13_fast_digit_parse_spec.
+
+Example C13_fdp_nonvacuous :
+  wfl [49; 52; 52; 52; 49; 49; 49; 49]%N /\
+  fast_digit_parse (le_u64 [49; 52; 52; 52; 49; 49; 49; 49]%N) = Some 14441111%N /\
+  fast_digit_parse (le_u64 [49; 52; 52; 52; 49; 58; 49; 49]%N) = None.
+Proof. split; [repeat constructor|exact fast_digit_parse_ex]. Qed.
